@@ -1,6 +1,7 @@
 package e4
 
 import (
+	"encoding/json"
 	"fmt"
 	"os"
 	"sort"
@@ -354,6 +355,11 @@ func TestC20Schedules(t *testing.T) {
 	deadline := vk.Deadline(8*time.Minute, 40*time.Minute)
 	scs := filtered(scenarios())
 	var totalExec, totalPoints int64
+	if rf := os.Getenv("VERIF_REPLAY"); rf != "" {
+		replaySchedule(rep, scs, rf)
+		rep.Write()
+		return
+	}
 	for _, sc := range scs {
 		allowed := sc.sequentialOutcomes()
 		seen := map[string]int{}
@@ -487,5 +493,59 @@ func TestC20Race(t *testing.T) {
 	rep.Sample("race pass: " + fmt.Sprint(iters) + " iterations per scenario")
 	if err := rep.Write(); err != nil {
 		t.Fatal(err)
+	}
+}
+
+
+// replaySchedule re-executes one recorded schedule five times without search; observations must be identical.
+func replaySchedule(rep *vk.Report, scs []*Scenario, file string) {
+	raw, err := os.ReadFile(file)
+	if err != nil {
+		rep.HarnessError("%v", err)
+		return
+	}
+	var body struct {
+		Replay struct {
+			Scenario string `json:"scenario"`
+			Choices  []int  `json:"choices"`
+		} `json:"replay"`
+	}
+	json.Unmarshal(raw, &body)
+	for _, sc := range scs {
+		if sc.Name != body.Replay.Scenario {
+			continue
+		}
+		allowed := sc.sequentialOutcomes()
+		first := ""
+		for k := 0; k < 5; k++ {
+			bodies, outcome := sc.bodies()
+			e := sched.Run(bodies, body.Replay.Choices)
+			out, calls := outcome()
+			verdict := "linearizable"
+			ok := false
+			for _, o := range allowed[out] {
+				if respectsRealTime(o, calls) {
+					ok = true
+				}
+			}
+			if len(e.Panics) > 0 {
+				verdict = "panic: " + e.Panics[0]
+			} else if e.Err != "" {
+				verdict = e.Err
+			} else if !ok {
+				verdict = "not linearizable"
+			}
+			obs := out + " | " + verdict + " | " + strings.Join(e.Trace, " ")
+			if k == 0 {
+				first = obs
+				fmt.Printf("replay %s %v -> %s\n", sc.Name, body.Replay.Choices, obs)
+				if verdict != "linearizable" {
+					rep.Violate(vk.Violation{Sig: "c20-replay", Msg: obs, Replay: map[string]any{"scenario": sc.Name, "choices": body.Replay.Choices}})
+				}
+			} else if obs != first {
+				rep.HarnessError("replay diverged: %q vs %q", obs, first)
+			}
+		}
+		rep.Evaluations, rep.Paths, rep.States, rep.Transitions = 5, 5, 1, 5
 	}
 }
